@@ -185,6 +185,7 @@ pub fn add_grids(p: &mut Plan, q: bool, boundary_words: bool) {
             let mut places = vec![Place::EndFlush, Place::StartFlush];
             places.extend(aligns.iter().map(|&a| Place::Mid(a)));
             places.extend([0usize, 1, 4, 7].iter().map(|&a| Place::Hostile(a)));
+            places.extend([1usize, 9, 17, 33].iter().map(|&k| Place::Mid(crate::arena::PAGE - k)));
             for place in places {
                 for filler in fillers(class) {
                     tasks.push(Box::new(move |ck: &mut Checker| {
@@ -213,7 +214,7 @@ pub fn add_grids(p: &mut Plan, q: bool, boundary_words: bool) {
         }
     }
     p.phases.push(Phase {
-        label: format!("S3: scanner grid, 5 backends × 3 classes × L≤{} × position × 256 values × 2 fillers × {} placements (end-flush, start-flush, {} mid-buffer alignments, 4 with in-class bytes around the buffer)", lmax, aligns.len() + 6, aligns.len()),
+        label: format!("S3: scanner grid, 5 backends × 3 classes × L≤{} × position × 256 values × 2 fillers × {} placements (end-flush, start-flush, {} mid-buffer alignments, 4 with in-class bytes around the buffer, 4 straddling a page boundary)", lmax, aligns.len() + 10, aligns.len()),
         backend: Backend::Native,
         tasks,
     });
